@@ -33,6 +33,8 @@ func allEntries(h *harness) []*entry {
 	out = append(out, didEntries(h)...)
 	out = append(out, cryptoEntries(h)...)
 	out = append(out, vcrEntries(h)...)
+	out = append(out, statusListRefreshEntry(h))
+	out = append(out, cacheEntries(h)...)
 	return out
 }
 
